@@ -701,3 +701,129 @@ func Run(pkg Package, meta []TableMeta, enums map[string][]string, db *sql.DB, w
 		s.emit(ev)
 	}
 }
+
+// ---------------------------------------------------------------- scripted sessions (spec -> code)
+
+// ScriptStep is one step of a behaviour of spec/CrudReplay.tla, in the vocabulary of the model file:
+// ids are the ABSTRACT ids of the specification (the driver keeps the correspondence with the ids the
+// database hands out, which differ as soon as an insert was refused: a sequence value is not given back).
+type ScriptStep struct {
+	Op    string         `json:"op"` // insert | update | delete | unlink
+	Table string         `json:"t"`
+	C     []string       `json:"c"`   // canonical column values, foreign keys as abstract ids
+	ID    int64          `json:"id"`  // insert: the abstract id the row gets if accepted; update: the row's abstract id
+	IDs   []int64        `json:"ids"` // delete: abstract ids
+	Last  string         `json:"last"`
+	Sizes map[string]int `json:"sizes"`
+}
+
+// setCanon stores a canonical value (the vocabulary of the replay model file: strings, integers) into a field.
+func setCanon(f reflect.Value, v string) {
+	switch f.Kind() {
+	case reflect.String:
+		f.SetString(strings.TrimPrefix(v, "s:"))
+	case reflect.Int, reflect.Int8, reflect.Int16, reflect.Int32, reflect.Int64:
+		n, err := strconv.ParseInt(v, 10, 64)
+		if err != nil {
+			panic("zcrud: script value " + v + " is not an integer")
+		}
+		f.SetInt(n)
+	default:
+		panic("zcrud: script value for unsupported field kind " + f.Kind().String())
+	}
+}
+
+// RunScript steps the generated functions through one exported behaviour against a fresh database; after every
+// step all tables are read back.  The events are those of Run (judged by TraceCrud).
+func RunScript(pkg Package, meta []TableMeta, db *sql.DB, w io.Writer, case_ int, script int, steps []ScriptStep) {
+	s := &session{pkg: pkg, meta: meta, db: db, rng: rand.New(rand.NewSource(1)), w: w, ids: map[string][]int64{}, case_: case_, seed: int64(script)}
+	s.emit(Event{Ev: "reset", Meta: meta})
+	real := map[string]map[int64]int64{} // table -> abstract id -> database id
+	realID := func(table string, abs int64) int64 {
+		if r, ok := real[table][abs]; ok {
+			return r
+		}
+		return 900 + abs // never handed out
+	}
+	build := func(m *TableMeta, c []string) reflect.Value {
+		item := reflect.ValueOf(s.tableOf(m.Go).New()).Elem()
+		for i, col := range m.Cols {
+			f := item.FieldByName(col.Field)
+			if col.FK != "" {
+				if c[i] == "NULL" {
+					s.setFK(f, 0, true)
+				} else {
+					abs, _ := strconv.ParseInt(c[i], 10, 64)
+					s.setFK(f, realID(col.FK, abs), false)
+				}
+				continue
+			}
+			setCanon(f, c[i])
+		}
+		return item
+	}
+	for _, st := range steps {
+		m := s.metaOf(st.Table)
+		t := s.tableOf(st.Table)
+		switch st.Op {
+		case "insert":
+			item := build(m, st.C)
+			ev := Event{Ev: "call", Op: "Insert", Fn: "Insert", Table: m.Go, Row: s.canonRow(m, item)}
+			if m.IDField != "" {
+				res := s.call(t.Funcs["Insert"], item, s.db)
+				ev.Err, ev.Msg = classify(errOf(res[1]))
+				if ev.Err == "" {
+					ev.Out = []OutRow{s.outRow(m, res[0])}
+					if real[m.Go] == nil {
+						real[m.Go] = map[int64]int64{}
+					}
+					real[m.Go][st.ID] = ev.Out[0].ID
+				}
+			} else {
+				res := s.call(t.Funcs["Insert"], item, s.db)
+				ev.Err, ev.Msg = classify(errOf(res[0]))
+			}
+			s.emit(ev)
+		case "update":
+			item := build(m, st.C)
+			ev := Event{Ev: "call", Op: "Update", Fn: "Update", Table: m.Go, ID: realID(m.Go, st.ID)}
+			item.FieldByName(m.IDField).SetInt(ev.ID)
+			ev.Row = s.canonRow(m, item)
+			res := s.call(t.Funcs["Update"], item, s.db)
+			ev.Err, ev.Msg = classify(errOf(res[1]))
+			if ev.Err == "" {
+				ev.Out = []OutRow{s.outRow(m, res[0])}
+			}
+			s.emit(ev)
+		case "delete":
+			ev := Event{Ev: "call", Op: "DeleteByIDs", Fn: "DeleteByIDs", Table: m.Go}
+			args := []any{s.db}
+			for _, abs := range st.IDs {
+				ev.IDs = append(ev.IDs, realID(m.Go, abs))
+				args = append(args, realID(m.Go, abs))
+			}
+			res := s.call(t.Funcs["DeleteByIDs"], args...)
+			ev.Err, ev.Msg = classify(errOf(res[1]))
+			if ev.Err == "" {
+				ev.OutID = idList(res[0])
+			}
+			s.emit(ev)
+		case "unlink":
+			item := build(m, st.C)
+			ev := Event{Ev: "call", Op: "Delete", Fn: "Delete", Table: m.Go, Row: s.canonRow(m, item)}
+			res := s.call(t.Funcs["Delete"], item, s.db)
+			ev.Err, ev.Msg = classify(errOf(res[0]))
+			s.emit(ev)
+		default:
+			panic("zcrud: unknown script operation " + st.Op)
+		}
+		for i := range s.meta {
+			mm := &s.meta[i]
+			res := s.call(s.tableOf(mm.Go).Funcs["SelectAll"], s.db)
+			ev := Event{Ev: "call", Op: "SelectAll", Fn: "SelectAll", Table: mm.Go}
+			ev.Err, ev.Msg = classify(errOf(res[1]))
+			ev.Out = s.collect(mm, res[0])
+			s.emit(ev)
+		}
+	}
+}
